@@ -20,6 +20,7 @@ BASE_FEAT = dict(
     p_kw=0.2,
     p_kw2=0.35,      # given keyword-only parameters: probability of a second one
     p_kw_meth=0.7,   # probability that a method of such a world declares each of them
+    p_rem=0.12,      # int positions: probability of a user-defined exclusive dependent kind (Rem[r])
     p_kwheavy=0.0,   # worlds where every method declares two keyword-only parameters (in either order) and every call passes both
     p_optional=0.2,
     p_prio=0.3,
@@ -203,6 +204,8 @@ def gen_world(rng, f):
         fl = flavour[p]
         if fl == "int":
             r = rng.random()
+            if rng.random() < f.get("p_rem", 0):
+                return ["rk", rng.randrange(3)]
             if r < 0.5:
                 vals = sorted(rng.sample(range(4), rng.randint(1, 2)))
                 return ["l", vals]
